@@ -128,6 +128,7 @@ func classes(login, pass string) []hdrClass {
 		{"space-after-password", basic(login + ":" + pass + " "), false},
 		{"space-around-colon", basic(login + " : " + pass), false},
 		{"base64-garbage-inside", []string{"Basic " + right[:2] + "*" + right[2:]}, true},
+		{"base64-trailing-garbage", []string{"Basic " + right + "*!*!"}, true},
 		{"two-headers-first-wrong", []string{"Basic " + b64(login+":nope"), "Basic " + right}, false},
 		{"two-headers-first-bearer", []string{"Bearer x", "Basic " + right}, true},
 	}
@@ -617,6 +618,7 @@ func runInstance(c *run.Ctx, bin string, cfg instCfg, flt *filter, st *stats, ro
 		authCombos = append(authCombos, combos[1])
 	}
 	var fails []failure
+	hung := map[string]bool{}
 	for _, t := range targets {
 		for ci, cb := range authCombos {
 			if !flt.match(cfg.Mode, cfg.Name, t.r.Template, t.method, "right", cb.Name) {
@@ -632,8 +634,11 @@ func runInstance(c *run.Ctx, bin string, cfg instCfg, flt *filter, st *stats, ro
 					ct, body = "application/json", `{}`
 				}
 			}
+			if hung[t.r.Template+"|"+t.method] {
+				continue // already seen not to answer (see below); do not wait again
+			}
 			before := in.srv.Seq()
-			a := in.send(t.method, url(t, true), right, cb, ct, body, nil, 8*time.Second)
+			a := in.send(t.method, url(t, true), right, cb, ct, body, nil, 3*time.Second)
 			st.requests++
 			key := fmt.Sprintf("%s|%s|%s|right|%s", cfg.Mode, t.r.Template, t.method, cb.Name)
 			c.Case(key)
@@ -642,9 +647,16 @@ func runInstance(c *run.Ctx, bin string, cfg instCfg, flt *filter, st *stats, ro
 				if died("an authorized request to " + t.r.Template) {
 					return false
 				}
-				// a handler that does not answer an authorized request is not C20's business
-				c.Undecided("authorized request got no answer")
+				// A handler that does not answer an authorized request (websocket-style routes,
+				// handlers that hang on a database error) is not C20's business: no 401 came back,
+				// nothing more can be said. Short timeout, authorized case only.
+				hung[t.r.Template+"|"+t.method] = true
+				c.Undecided("authorized request got no answer within the client timeout")
 				c.Note(fmt.Sprintf("%s %s %s (authorized): %s", tag, t.method, t.r.Template, short(a.Err, 200)))
+				if len(in.srv.Since(before, chtcp.KQuery)) > 0 {
+					st.authorizedDB++
+					c.Cover("authorized_db_interaction", cfg.Mode+" "+t.method+" "+t.r.Template, 1)
+				}
 				continue
 			}
 			c.Cover("status_authorized", fmt.Sprintf("%s/%d", cfg.Mode, a.Status), 1)
@@ -662,8 +674,7 @@ func runInstance(c *run.Ctx, bin string, cfg instCfg, flt *filter, st *stats, ro
 					c.Note(fmt.Sprintf("%s %s %s -> %d %q", tag, t.method, url(t, true), a.Status, short(a.Body, 60)))
 				}
 			}
-			evs := in.srv.Since(before, chtcp.KQuery, chtcp.KConn)
-			if len(evs) > 0 {
+			if len(in.srv.Since(before, chtcp.KQuery)) > 0 {
 				st.authorizedDB++
 				c.Cover("authorized_db_interaction", cfg.Mode+" "+t.method+" "+t.r.Template, 1)
 			}
